@@ -230,8 +230,14 @@ def c16_exe_case(param):
     for lit in lits:
         text = "(set-option :produce-models true)\n(set-logic %s)\n(declare-fun x () %s)\n(assert (= x %s))\n(check-sat)\n(get-value (x))\n" % (logic, sort, lit)
         run = osmt.run_opensmt(text, flavour="asan", cpu_s=10)
+        if (run.timeout or not run.out.strip()) and not run.crashed():
+            run = osmt.run_opensmt(text, flavour="asan", cpu_s=30)        # loaded machine: once more before giving up
         res.evals += 1
         want = exact_value(lit)
+        if (run.timeout or not run.out.strip()) and not run.crashed():
+            res.inconclusive += 1
+            res.inc("exe_no_output")
+            continue
         if run.crashed():
             res.viol.append(Violation("exe-crash", "literal", "crash on literal %s\n%s" % (lit, run.err[-800:]), {"literal": lit, "sort": sort, "prop": "C16", "kind": "exe"}))
             continue
